@@ -282,6 +282,22 @@ def handler : Handler := fun op j =>
     let a ← aArg? a
     let g ← guardOf? cls w a (yn != 0)
     some (ok (jObj [("guard", Json.str (guardStr g))]))
+  | "nuclear_fullc" => do
+    -- complex factors (row-major re / im lists)
+    let m ← fNat? j "m"; let n ← fNat? j "n"; let k ← fNat? j "k"
+    let ure ← fFloats? j "ure"; let uim ← fFloats? j "uim"; let sv ← fFloats? j "s"
+    let vre ← fFloats? j "vhre"; let vim ← fFloats? j "vhim"; let lam ← fFloat? j "lam"
+    if ure.length != m * k || uim.length != m * k || sv.length != k || vre.length != k * n || vim.length != k * n then none else
+    let Ur := matOf ure m k; let Ui := matOf uim m k; let Vr := matOf vre k n; let Vi := matOf vim k n
+    let U : Fin m → Fin k → Float × Float := fun i l => (Ur i l, Ui i l)
+    let Vh : Fin k → Fin n → Float × Float := fun l jj => (Vr l jj, Vi l jj)
+    let s := vecOf sv k
+    let P := nuclearProxC U s Vh lam
+    let M := usvMatC U s Vh
+    let flat (A : Fin m → Fin n → Float × Float) : List (Float × Float) :=
+      (List.finRange m).flatMap fun i => (List.finRange n).map fun jj => A i jj
+    some (ok (jObj [("re", jFs ((flat P).map Prod.fst)), ("im", jFs ((flat P).map Prod.snd)),
+      ("usvre", jFs ((flat M).map Prod.fst)), ("usvim", jFs ((flat M).map Prod.snd))]))
   | "accepts" => do
     -- argument checks of `NuclearNorm.prox` (`ndim`) and `L21Norm.prox` (`block`, `axis_none`): ok / ValueError
     let kind ← fStr? j "kind"
